@@ -166,3 +166,113 @@ fn c15e_pipeline_witness() {
     let _ = get_slot_abbreviation(s);
     assert!(false);
 }
+
+// =================================================================================================
+// path builders, decided for symbolic ids / races / slots through the format! engine model
+// (registry.FORMAT_MODEL): exact text of every built path
+// =================================================================================================
+use crate::race::{Gender, Race, Tribe, get_race_id, build_skeleton_path};
+
+fn d4(v: i32) -> [u8; 4] {
+    [b'0' + (v / 1000 % 10) as u8, b'0' + (v / 100 % 10) as u8, b'0' + (v / 10 % 10) as u8, b'0' + (v % 10) as u8]
+}
+/// a valid (race, tribe, gender) triple and its race code
+fn any_valid_triple() -> (Race, Tribe, Gender, i32) {
+    let r: u8 = kani::any();
+    kani::assume(r >= 1 && r <= 8);
+    let second: bool = kani::any();
+    let g: u8 = kani::any();
+    kani::assume(g <= 1);
+    let t = 2 * r - 1 + second as u8;
+    let code = get_race_id(Race::try_from(r).unwrap(), Tribe::try_from(t).unwrap(), Gender::try_from(g).unwrap()).unwrap();
+    (Race::try_from(r).unwrap(), Tribe::try_from(t).unwrap(), Gender::try_from(g).unwrap(), code)
+}
+struct Expect { buf: [u8; 96], n: usize }
+impl Expect {
+    fn new() -> Self { Expect { buf: [0; 96], n: 0 } }
+    fn s(&mut self, t: &[u8]) { let mut i = 0; while i < t.len() { self.buf[self.n] = t[i]; self.n += 1; i += 1; } }
+    fn check(&self, got: &str) {
+        let g = got.as_bytes();
+        assert_eq!(g.len(), self.n);
+        let mut i = 0;
+        while i < 96 { if i < self.n { assert_eq!(g[i], self.buf[i]); } i += 1; }
+    }
+}
+
+/// chara/equipment/eIIII/model/cRRRReIIII_sss.mdl for every id 0..9999, valid triple, slot
+#[kani::proof]
+#[kani::unwind(100)]
+fn c15_equipment_path_all() {
+    let id: i32 = kani::any();
+    kani::assume(id >= 0 && id <= 9999);
+    let (race, tribe, gender, code) = any_valid_triple();
+    let slot_i: u8 = kani::any();
+    kani::assume(slot_i < 10);
+    let p = build_equipment_path(id, race, tribe, gender, slot_from_index(slot_i));
+    let mut e = Expect::new();
+    e.s(b"chara/equipment/e"); e.s(&d4(id)); e.s(b"/model/c"); e.s(&d4(code)); e.s(b"e"); e.s(&d4(id)); e.s(b"_");
+    e.s(get_slot_abbreviation(slot_from_index(slot_i)).as_bytes()); e.s(b".mdl");
+    e.check(&p);
+    // the file name starts at byte 28: deconstruct reads id from bytes 6..10 and the slot from 11..14 of it
+    assert_eq!(p.as_bytes()[28], b'c');
+    kani::cover!(true);
+    core::mem::forget(p);
+}
+
+/// chara/human/cRRRR/obj/<dir>/<p>VVVV/model/cRRRR<p>VVVV_<abr>.mdl
+#[kani::proof]
+#[kani::unwind(100)]
+fn c15_character_path_all() {
+    let ver: i32 = kani::any();
+    kani::assume(ver >= 0 && ver <= 9999);
+    let (race, tribe, gender, code) = any_valid_triple();
+    let ci: u8 = kani::any();
+    kani::assume(ci < 5);
+    let cat = match ci { 0 => CharacterCategory::Body, 1 => CharacterCategory::Hair, 2 => CharacterCategory::Face, 3 => CharacterCategory::Tail, _ => CharacterCategory::Ear };
+    let (dir, pre, abr): (&[u8], &[u8], &[u8]) = match ci { 0 => (b"body", b"b", b"top"), 1 => (b"hair", b"h", b"hir"), 2 => (b"face", b"f", b"fac"), 3 => (b"tail", b"t", b"til"), _ => (b"zear", b"z", b"zer") };
+    let p = build_character_path(cat, ver, race, tribe, gender);
+    let mut e = Expect::new();
+    e.s(b"chara/human/c"); e.s(&d4(code)); e.s(b"/obj/"); e.s(dir); e.s(b"/"); e.s(pre); e.s(&d4(ver)); e.s(b"/model/c"); e.s(&d4(code));
+    e.s(pre); e.s(&d4(ver)); e.s(b"_"); e.s(abr); e.s(b".mdl");
+    e.check(&p);
+    kani::cover!(true);
+    core::mem::forget(p);
+}
+
+/// chara/human/cRRRR/skeleton/base/b0001/skl_cRRRRb0001.sklb
+#[kani::proof]
+#[kani::unwind(100)]
+fn c15_skeleton_path_all() {
+    let (race, tribe, gender, code) = any_valid_triple();
+    let p = build_skeleton_path(race, tribe, gender);
+    let mut e = Expect::new();
+    e.s(b"chara/human/c"); e.s(&d4(code)); e.s(b"/skeleton/base/b0001/skl_c"); e.s(&d4(code)); e.s(b"b0001.sklb");
+    e.check(&p);
+    kani::cover!(true);
+    core::mem::forget(p);
+}
+
+/// the six material path builders (material name concrete, every code 0..9999)
+#[kani::proof]
+#[kani::unwind(100)]
+fn c15_material_paths_all() {
+    let a: i32 = kani::any();
+    let b: i32 = kani::any();
+    kani::assume(a >= 0 && a <= 9999 && b >= 0 && b <= 9999);
+    let name = "/mt_c0101e6016_top_a.mtrl";
+    let which: u8 = kani::any();
+    kani::assume(which < 6);
+    let mut e = Expect::new();
+    let p = match which {
+        0 => { e.s(b"chara/equipment/e"); e.s(&d4(a)); e.s(b"/material/v"); e.s(&d4(b)); build_gear_material_path(a, b, name) }
+        1 => { e.s(b"chara/human/c"); e.s(&d4(a)); e.s(b"/obj/body/b"); e.s(&d4(b)); e.s(b"/material/v0001"); build_skin_material_path(a, b, name) }
+        2 => { e.s(b"chara/human/c"); e.s(&d4(a)); e.s(b"/obj/face/f"); e.s(&d4(b)); e.s(b"/material"); build_face_material_path(a, b, name) }
+        3 => { e.s(b"chara/human/c"); e.s(&d4(a)); e.s(b"/obj/hair/h"); e.s(&d4(b)); e.s(b"/material/v0001"); build_hair_material_path(a, b, name) }
+        4 => { e.s(b"chara/human/c"); e.s(&d4(a)); e.s(b"/obj/ear/e"); e.s(&d4(b)); e.s(b"/material/v0001"); build_ear_material_path(a, b, name) }
+        _ => { e.s(b"chara/human/c"); e.s(&d4(a)); e.s(b"/obj/tail/t"); e.s(&d4(b)); e.s(b"/material/v0001"); build_tail_material_path(a, b, name) }
+    };
+    e.s(name.as_bytes());
+    e.check(&p);
+    kani::cover!(true);
+    core::mem::forget(p);
+}
